@@ -29,6 +29,9 @@ class CoopLock:
             raise RuntimeError("scheduler granted a held lock")
         self.locked_flag = True
         self.owner = run.me()
+        if run.fine:
+            # a thread can be preempted right after the operation, before the code that follows it
+            run.point(("after-acq", self))
         return True
 
     def release(self):
@@ -38,6 +41,8 @@ class CoopLock:
             raise RuntimeError("release unlocked lock")
         self.locked_flag = False
         self.owner = None
+        if run.fine:
+            run.point(("after-rel", self))
 
     def locked(self):
         return self.locked_flag
@@ -64,7 +69,8 @@ class Run:
     """One execution of a harness program under a choice function."""
     current = None
 
-    def __init__(self, bodies):
+    def __init__(self, bodies, fine=False):
+        self.fine = fine
         self.workers = [Worker(i, fn) for i, fn in enumerate(bodies)]
         self.ctrl = threading.Semaphore(0)
         self.aborting = False
@@ -140,7 +146,7 @@ class Run:
         Run.current = None
 
 
-def explore_stateful(make_bodies, state_of, check_state, max_execs=1000000):
+def explore_stateful(make_bodies, state_of, check_state, max_execs=1000000, fine=False):
     """Stateful DFS over all interleavings at scheduling-point granularity.
 
     make_bodies() -> (bodies, context)   fresh shared objects + worker functions per execution
@@ -167,7 +173,7 @@ def explore_stateful(make_bodies, state_of, check_state, max_execs=1000000):
             capped = True
             break
         bodies, cx = make_bodies()
-        run = Run(bodies)
+        run = Run(bodies, fine)
         run.start()
         path = []
         states = []
